@@ -31,7 +31,7 @@ def run(ctx):
     for K in (1, 2):
         jobs.append(Job("c16.py", "h_lex", {"K": K, "fixed_kind": True}, T, 30, tag=f"token positions K={K}", meta={"sigtag": "lex"}))
     # quick: Python only (indentation blocks are the delicate case; brace languages are covered by the mutants and by thorough) (C, C++ and C# share all pairing code; TypeScript shares JavaScript's arrow pattern); thorough: all seven, N=3
-    plan = {l: 2 for l in ("Python",)} if ctx.quick() else {l: 3 for l in ("Python", "C", "JavaScript", "Java", "TypeScript", "Cpp", "CSharp")}
+    plan = {l: 2 for l in ("Python",)} if ctx.quick() else {"Python": 3, "C": 3, "JavaScript": 3, "Java": 2, "TypeScript": 2, "Cpp": 2, "CSharp": 2}
     jobs += soup_common.soup_jobs(ctx, "wellformed", plan, framed=True, tolerate=AMBIG)
     jobs += soup_common.mutation_jobs(ctx, ["two", "stmt-mix", "nested-middle", "nested-two", "class-methods", "x-arrow-then-fn", "x-arrow-encloses-fn"] if ctx.quick() else None, tolerate=AMBIG)
     ctx.run_xh(jobs)
